@@ -1,5 +1,5 @@
 #!/bin/bash
-# usage: tools_mutant_all.sh [name-pattern]   -- runs every seeded change (seeded/<ID>-m<k>/patch.diff and seeded/self/<id>-*.diff) against the quick
+# usage: tools_mutant_all.sh [name-regex]   -- runs every seeded change (seeded/<ID>-m<k>/patch.diff and seeded/self/<id>-*.diff) against the quick
 # check(s) of the property it targets; writes seeded/RESULTS.txt. REPO (default /repo) is the tree the patches are applied to (and undone in);
 # when REPO is not /repo the harness' path dependency is redirected to it (for background runs on a snapshot: vp run --with-repo).
 V="$(cd "$(dirname "$0")" && pwd)"; R="${REPO:-/repo}"; pat="${1:-}"
@@ -12,7 +12,8 @@ extra() { case "$1" in C06) echo "C07";; C07) echo "C06";; C03) echo "C10 C17";;
 for p in "$V"/seeded/C*-m*/patch.diff "$V"/seeded/self/c*.diff; do
   [ -f "$p" ] || continue
   case "$p" in */self/*) name="self/$(basename "$p" .diff)"; id="$(basename "$p" | cut -c1-3 | tr c C)";; *) name="$(basename "$(dirname "$p")")"; id="${name%%-*}";; esac
-  [ -n "$pat" ] && [[ "$name" != *$pat* ]] && continue
+  [ -n "$pat" ] && [[ ! "$name" =~ $pat ]] && continue
+  if grep -q '"status": "obsolete' "$(dirname "$p")/meta.json" 2>/dev/null && [[ "$p" != */self/* ]]; then echo "$name: obsolete (see its meta.json)" | tee -a "$out"; continue; fi
   if ! git apply "$p" 2>/dev/null && ! git apply -C1 "$p" 2>/dev/null; then echo "$name: patch does not apply on $(git log --format=%h -1)" | tee -a "$out"; continue; fi
   res=""
   for prop in $id $(extra $id); do
